@@ -237,6 +237,11 @@ class MemoryFile(File):
   def flush(self) -> None:
     pass
 
+  def truncate(self) -> None:
+    """Discards the content of the file."""
+    self._buffer.seek(0)
+    self._buffer.truncate()
+
   def close(self) -> None:
     self.seek(0)
 
@@ -279,6 +284,9 @@ class MemoryFileSystem(FileSystem):
         buffer = io.BytesIO() if 'b' in mode else io.StringIO()
         file = MemoryFile(buffer)
         parent_dir[name] = file
+    elif 'w' in mode and file is not None:
+      # Opening an existing file for writing truncates it.
+      file.truncate()
 
     if file is None:
       raise FileNotFoundError(path)
